@@ -8,4 +8,4 @@ Extraction "../ocaml/gen/ModelC15.ml"
   tbs_cert_values req_info_values tbs_crl_values revoked_entry integer_value integer_content
   time_value gen_time_value find_revoked alg_sm2sm3
   ext_ex_emit ext_emit ext_from_der find_by_issuer_serial octets_eqb alg_is_sm2sm3 alg_sm2sm3_null cert_check_crl
-  name_build name_dec name_get_value attr_ok certs_by_index certs_last crl_check general_name_enc general_name_dec general_names_find.
+  name_build name_dec name_get_value attr_ok certs_by_index certs_last crl_check general_name_enc general_name_dec general_names_find validity_add_days.
